@@ -24,6 +24,8 @@ import (
 type apiScenario struct {
 	name  string
 	build func(m *ir.Module, expect func(v value.Value, want string))
+	// text the printed module must contain: what was constructed and does not show in any type (a flag, a marker)
+	frags []string
 }
 
 func useAll(m *ir.Module, v value.Value) {
@@ -62,7 +64,7 @@ func apiScenarios() []apiScenario {
 			a := m.NewAlias("a", constant.NewAddrSpaceCast(g, as1(types.I32)))
 			expect(a, "i32 addrspace(1)*")
 			useAll(m, a)
-		}},
+		}, nil},
 		{"alias-of-addrspace-global", func(m *ir.Module, expect func(value.Value, string)) {
 			g := m.NewGlobalDef("g", constant.NewInt(types.I32, 0))
 			g.AddrSpace = 3
@@ -70,7 +72,7 @@ func apiScenarios() []apiScenario {
 			expect(g, "i32 addrspace(3)*")
 			expect(a, "i32 addrspace(3)*")
 			useAll(m, a)
-		}},
+		}, nil},
 		{"alias-of-gep-expr", func(m *ir.Module, expect func(value.Value, string)) {
 			g := m.NewGlobalDef("g", constant.NewZeroInitializer(types.NewArray(2, types.I32)))
 			g.AddrSpace = 2
@@ -78,13 +80,13 @@ func apiScenarios() []apiScenario {
 			a := m.NewAlias("a", constant.NewGetElementPtr(types.NewArray(2, types.I32), g, zero, constant.NewInt(types.I64, 1)))
 			expect(a, "i32 addrspace(2)*")
 			useAll(m, a)
-		}},
+		}, nil},
 		{"alias-of-bitcast", func(m *ir.Module, expect func(value.Value, string)) {
 			g := m.NewGlobalDef("g", constant.NewInt(types.I32, 0))
 			a := m.NewAlias("a", constant.NewBitCast(g, types.NewPointer(types.I8)))
 			expect(a, "i8*")
 			useAll(m, a)
-		}},
+		}, nil},
 		{"ifunc", func(m *ir.Module, expect func(value.Value, string)) {
 			impl := types.NewPointer(types.NewFunc(types.I32, types.I32))
 			r := m.NewFunc("resolver", impl)
@@ -92,19 +94,19 @@ func apiScenarios() []apiScenario {
 			i := m.NewIFunc("i", r)
 			expect(i, "i32 (i32)*")
 			useAll(m, i)
-		}},
+		}, nil},
 		{"global-addrspace", func(m *ir.Module, expect func(value.Value, string)) {
 			g := m.NewGlobalDef("g", constant.NewInt(types.I32, 0))
 			g.AddrSpace = 5
 			expect(g, "i32 addrspace(5)*")
 			useAll(m, g)
-		}},
+		}, nil},
 		{"func-addrspace", func(m *ir.Module, expect func(value.Value, string)) {
 			h := m.NewFunc("h", types.Void)
 			h.AddrSpace = 2
 			expect(h, "void () addrspace(2)*")
 			useAll(m, h)
-		}},
+		}, nil},
 		{"func-variadic", func(m *ir.Module, expect func(value.Value, string)) {
 			h := m.NewFunc("h", types.I32, ir.NewParam("", types.NewPointer(types.I8)))
 			h.Sig.Variadic = true
@@ -117,7 +119,7 @@ func apiScenarios() []apiScenario {
 			expect(r1, "i32")
 			expect(r2, "i32")
 			b.NewRet(b.NewAdd(r1, r2))
-		}},
+		}, nil},
 		{"two-names-one-underlying-type", func(m *ir.Module, expect func(value.Value, string)) {
 			// several type definitions whose underlying types are structurally equal (non-struct types compare by structure): each must be listed
 			// (in the order the parser lists them: natural sort of the names)
@@ -137,7 +139,7 @@ func apiScenarios() []apiScenario {
 			r := b.NewAdd(f.Params[0], constant.NewInt(meters, 3))
 			expect(r, "%meters")
 			b.NewRet(b.NewBitCast(r, seconds))
-		}},
+		}, nil},
 		{"shuffle-mask-lengths", func(m *ir.Module, expect func(value.Value, string)) {
 			// the result of a shufflevector has the length of its MASK, however it compares with the length of the inputs (1, 2, 8 from 2)
 			v2 := types.NewVector(2, types.I32)
@@ -159,7 +161,7 @@ func apiScenarios() []apiScenario {
 			b.NewExtractElement(s1, constant.NewInt(types.I32, 0))
 			b.NewAdd(s2, s2)
 			b.NewRet(s8)
-		}},
+		}, nil},
 		{"named-vector-compare", func(m *ir.Module, expect func(value.Value, string)) {
 			v := types.NewVector(4, types.I32)
 			m.NewTypeDef("v", v)
@@ -170,7 +172,7 @@ func apiScenarios() []apiScenario {
 			expect(c, "<4 x i1>")
 			z := b.NewZExt(c, types.NewVector(4, types.I32))
 			b.NewRet(z)
-		}},
+		}, nil},
 		{"named-float-vector-compare", func(m *ir.Module, expect func(value.Value, string)) {
 			v := types.NewVector(2, types.Double)
 			m.NewTypeDef("fv", v)
@@ -180,7 +182,7 @@ func apiScenarios() []apiScenario {
 			c.SetName("c")
 			expect(c, "<2 x i1>")
 			b.NewRet(c)
-		}},
+		}, nil},
 		{"scalable-compare-select", func(m *ir.Module, expect func(value.Value, string)) {
 			v := &types.VectorType{Scalable: true, Len: 4, ElemType: types.Float}
 			f := m.NewFunc("f", v, ir.NewParam("a", v), ir.NewParam("b", v))
@@ -194,7 +196,7 @@ func apiScenarios() []apiScenario {
 			s := b.NewSelect(b.NewAnd(c, ic), f.Params[0], f.Params[1])
 			expect(s, "<vscale x 4 x float>")
 			b.NewRet(s)
-		}},
+		}, nil},
 		{"named-struct-aggregate-ops", func(m *ir.Module, expect func(value.Value, string)) {
 			inner := types.NewStruct(types.I8, types.I64)
 			outer := types.NewStruct(types.I32, inner)
@@ -207,7 +209,7 @@ func apiScenarios() []apiScenario {
 			expect(i, "%outer")
 			e2 := b.NewExtractValue(i, 1, 0)
 			b.NewRet(b.NewAdd(e, e2))
-		}},
+		}, nil},
 		{"empty-aggregates", func(m *ir.Module, expect func(value.Value, string)) {
 			ps := &types.StructType{Packed: true}
 			m.NewGlobalDef("a", constant.NewStruct(types.NewStruct()))
@@ -215,14 +217,14 @@ func apiScenarios() []apiScenario {
 			m.NewGlobalDef("c", constant.NewStruct(&types.StructType{Packed: true, Fields: []types.Type{types.I32}}, constant.NewInt(types.I32, 7)))
 			m.NewGlobalDef("d", constant.NewArray(types.NewArray(0, types.I8)))
 			m.NewGlobalDef("e", constant.NewStruct(types.NewStruct(ps, types.NewStruct()), constant.NewStruct(ps), constant.NewStruct(types.NewStruct())))
-		}},
+		}, nil},
 		{"ptrtoint-scalable-expr", func(m *ir.Module, expect func(value.Value, string)) {
 			pv := &types.VectorType{Scalable: true, Len: 2, ElemType: types.NewPointer(types.I8)}
 			iv := &types.VectorType{Scalable: true, Len: 2, ElemType: types.I64}
 			e := constant.NewPtrToInt(constant.NewZeroInitializer(pv), iv)
 			expect(e, "<vscale x 2 x i64>")
 			m.NewFunc("f", iv).NewBlock("entry").NewRet(e)
-		}},
+		}, nil},
 		{"alloca-addrspace", func(m *ir.Module, expect func(value.Value, string)) {
 			f := m.NewFunc("f", types.Void)
 			b := f.NewBlock("entry")
@@ -232,7 +234,20 @@ func apiScenarios() []apiScenario {
 			expect(a, "i32 addrspace(5)*")
 			b.NewStore(constant.NewInt(types.I32, 1), a)
 			b.NewRet(nil)
-		}},
+		}, nil},
+		{"gepexpr-inrange", func(m *ir.Module, expect func(value.Value, string)) {
+			vt := m.NewGlobalDef("vt", constant.NewZeroInitializer(types.NewStruct(types.NewArray(4, types.I8Ptr), types.NewArray(2, types.I8Ptr))))
+			zero := constant.NewInt(types.I32, 0)
+			idx := constant.NewIndex(constant.NewInt(types.I32, 1))
+			idx.InRange = true
+			e := constant.NewGetElementPtr(vt.ContentType, vt, zero, idx, constant.NewInt(types.I32, 1))
+			e.InBounds = true
+			expect(e, "i8**")
+			m.NewGlobalDef("p", e)
+			f := m.NewFunc("f", types.NewPointer(types.I8Ptr))
+			f.NewBlock("entry").NewRet(e)
+		}, []string{"@p = global i8** getelementptr inbounds ({ [4 x i8*], [2 x i8*] }, { [4 x i8*], [2 x i8*] }* @vt, i32 0, inrange i32 1, i32 1)",
+			"ret i8** getelementptr inbounds ({ [4 x i8*], [2 x i8*] }, { [4 x i8*], [2 x i8*] }* @vt, i32 0, inrange i32 1, i32 1)"}},
 	}
 }
 
@@ -275,6 +290,11 @@ func init() {
 				return bad
 			}
 			text := m.String()
+			for _, fr := range s.frags {
+				if !strings.Contains(text, fr) {
+					return "FAIL " + s.name + ": the printed module lacks " + fr
+				}
+			}
 			m2, err := asm.ParseString("x.ll", text)
 			if err != nil {
 				return "FAIL " + s.name + ": printed text rejected: " + firstLineOf(err.Error())
